@@ -59,6 +59,8 @@ func ghostType(name string) types.Type {
 		return types.Typ[types.String]
 	case "bytes":
 		return bytesType
+	case "fn":
+		return types.NewSignatureType(nil, nil, nil, nil, nil, false)
 	}
 	return specType(name)
 }
@@ -184,13 +186,13 @@ func (x *Exec) checkEnsures(fr *Frame, st *State, rs []Val, ret *ssa.Return) {
 			for i, part := range splitConjuncts(c.Expr) {
 				g := x.evalSpecBool(fr, st, fr.entry, part, env)
 				name := x.siteName(fmt.Sprintf("%s/ensures.%s.part%d[%s]", x.prog.relName(fr.fn), lbl, i, part.Text))
-				x.oblige(st, "ensures", name, c.Tags, ret.Pos(), g)
+				x.oblige(st, "ensures", name, c.Tags, retPos(fr, ret), g)
 			}
 			continue
 		}
 		g := x.evalSpecBool(fr, st, fr.entry, c.Expr, env)
 		name := x.siteName(fmt.Sprintf("%s/ensures.%s", x.prog.relName(fr.fn), lbl))
-		o := x.oblige(st, "ensures", name, c.Tags, ret.Pos(), g)
+		o := x.oblige(st, "ensures", name, c.Tags, retPos(fr, ret), g)
 		if o != nil {
 			o.Note = c.Text
 			o.clause = c
@@ -358,10 +360,11 @@ func (x *Exec) checkFrame(fr *Frame, st *State, ret *ssa.Return) {
 		}
 		goal := fmt.Sprintf("(forall ((%s %s)) (=> %s (= (select %s %s) (select %s %s))))", q, SRef, and(conds...), cur, q, init, q)
 		name := x.siteName(fmt.Sprintf("%s/frame.%s", x.prog.relName(fr.fn), k))
-		x.oblige(st, "frame", name, tags, ret.Pos(), goal)
+		x.oblige(st, "frame", name, tags, retPos(fr, ret), goal)
 	}
 	for g, v := range st.ghost {
-		if ghosts[g] {
+		if ghosts[g] || strings.HasPrefix(g, "cacheFound") {
+			// cacheFound*: observation record written by the go-cache model, not part of any frame
 			continue
 		}
 		e := fr.entry.ghost[g]
@@ -371,7 +374,7 @@ func (x *Exec) checkFrame(fr *Frame, st *State, ret *ssa.Return) {
 		}
 		if goal := and(es...); goal != "true" {
 			name := x.siteName(fmt.Sprintf("%s/frame.#%s", x.prog.relName(fr.fn), g))
-			x.oblige(st, "frame", name, tags, ret.Pos(), goal)
+			x.oblige(st, "frame", name, tags, retPos(fr, ret), goal)
 		}
 	}
 }
@@ -947,4 +950,11 @@ func isIndexed(addr ssa.Value) bool {
 			return false
 		}
 	}
+}
+
+func retPos(fr *Frame, ret *ssa.Return) token.Pos {
+	if ret != nil {
+		return ret.Pos()
+	}
+	return fr.fn.Pos()
 }
